@@ -25,7 +25,7 @@ RULE = ("two inverter objects (all ordered pairs of 8 templates: ET 205 eco-v2 /
         "distinct = distinct (template pair, call sequences, interleaving) tuples")
 ASSUMPTIONS = ["results are compared by type name, str() and (for eco-mode / schedule values) their public fields",
                "each transcript runs in its own interpreter started by the check (subprocess per transcript)"]
-MUST = ["transcripts", "interleavings_compared", "concurrent_interleavings", "snapshots_checked", "eco_values_snapshotted",
+MUST = ["retransmitting_pairs", "transcripts", "interleavings_compared", "concurrent_interleavings", "snapshots_checked", "eco_values_snapshotted",
         "cross_family_pairs", "same_template_pairs", "requests_compared", "concurrent_with_fragmented_answers", "long_history_pairs", "same_host_pairs", "drifting_measurements_pairs"]
 EXHAUSTIVE = {"quick": False, "thorough": False}
 
@@ -117,6 +117,17 @@ def worker(spec):
         sim.drift = bool(o.get("drift"))
         if o.get("frag"):           # this inverter answers in two pieces (same in its solo transcript)
             sim.frag = tuple(o["frag"])
+        if o.get("lossy"):          # the first `lossy` transmissions of every request towards this inverter are lost (same in its solo transcript)
+            def on_request(s_, kind, frame, n, _o=sim.on_request, _st={"last": None, "n": 0}, _k=o["lossy"], _strip=(o["port"] == 502), _sim=sim):
+                key = bytes(frame[2:]) if _strip and frame[0:4] != b"\xaa\x55\xc0\x7f" else bytes(frame)
+                if key != _st["last"]:
+                    _st["last"], _st["n"] = key, 0
+                _st["n"] += 1
+                if _st["n"] <= _k:
+                    _sim.loop.ev("sim_lost", _sim.owner, n)
+                    return None
+                return _o(s_, kind, frame, n)
+            sim.on_request = on_request
         sims_.append(sim)
         peers[(o.get("host", f"inv{i}"), o["port"])] = sim
     results = [[] for _ in objs]
@@ -144,10 +155,13 @@ def worker(spec):
         fams = {"ET": g.ET, "DT": g.DT, "ES": g.ES}
         for i, o in enumerate(objs):
             # only the objects that take part in this transcript exist in this interpreter ("run alone" means alone)
-            invs.append(fams[o["template"][:2]](o.get("host", f"inv{i}"), o["port"], o.get("comm", 0), 1, 0) if i in spec["active"] else None)
+            invs.append(fams[o["template"][:2]](o.get("host", f"inv{i}"), o["port"], o.get("comm", 0), 1, o.get("retries", 0)) if i in spec["active"] else None)
         # device info always first, in object order (identical in solo and interleaved runs)
         for i in spec["active"]:
             await invs[i].read_device_info()
+        for i in spec["active"]:
+            if objs[i].get("silent"):       # this inverter stops answering once it has been identified
+                sims_[i].silent = True
         for i in spec["active"]:
             # an object with a long history: it has already built this many Modbus/TCP requests (what every transmission does)
             for _ in range(objs[i].get("pre_tx", 0)):
@@ -264,6 +278,8 @@ def scenario_check(sc, part, workdir):
     inter = [{"objects": objs, "active": [0, 1], "schedule": m} for m in merges]
     for k in range(sc["n_concurrent"]):
         offs = [rnd.choice((0.0, 0.05, 0.25)), rnd.choice((0.0, 0.05, 0.15, 0.35))]
+        if sc.get("lossy"):             # (timeout 1 s: the other object's retransmissions fall between this object's)
+            offs = [[0.0, 0.5], [0.0, 0.25], [0.5, 0.0], [0.0, 0.0]][k % 4]
         if sc.get("fragmented"):        # (latency 0.1, pieces 0.04 apart: the other object's request falls between the two pieces)
             offs = [[0.0, 0.12], [0.12, 0.0], [0.0, 0.26]][k % 3]
             part.count("concurrent_with_fragmented_answers")
@@ -278,6 +294,8 @@ def scenario_check(sc, part, workdir):
             return
     if sc.get("long_history"):
         part.count("long_history_pairs")
+    if sc.get("lossy"):
+        part.count("retransmitting_pairs")
     if sc.get("same_host"):
         part.count("same_host_pairs")
     if sc.get("drifting"):
@@ -405,6 +423,20 @@ def drift_scenarios(seed):
     return out
 
 
+def lossy_scenarios(seed):
+    """retransmissions under way on both objects at the same time: inverter A stops answering after its identification, inverter B loses the
+    first two transmissions of every request; both objects have a retry budget of 2 and their calls overlap in time.  Each object must
+    transmit exactly what it transmits alone (same number of retransmissions) and report the same outcome."""
+    out = []
+    for a, b in (("ESv1", "ESv1"), ("ESv2", "ESv1"), ("ET205", "ET205"), ("DT", "DT"), ("ET205", "DT"), ("ESv1", "ET205"), ("DT", "ESv2")):
+        for ca, cb in (([["read_runtime_data"], ["read_runtime_data"]], [["read_runtime_data"], ["read_runtime_data"]]),
+                       ([["read_runtime_data"]], [["read_settings_data"], ["read_runtime_data"]])):
+            out.append({"seed": f"{seed}:lossy:{a}:{b}:{len(out)}", "n_random_merges": 1, "n_concurrent": 4, "lossy": True,
+                        "objects": [{"template": a, "port": 8899, "seed": f"{seed}:lA{len(out)}", "calls": ca, "silent": True, "retries": 2},
+                                    {"template": b, "port": 8899, "seed": f"{seed}:lB{len(out)}", "calls": cb, "lossy": 2, "retries": 2}]})
+    return out
+
+
 def long_history_scenarios(seed):
     """object A has a long Modbus/TCP history behind it (tens of thousands of requests) when object B makes its few calls"""
     out = []
@@ -425,7 +457,7 @@ def run_shard(spec):
     part = Part()
     tier = spec["tier"]
     rnd = random.Random(f"{spec['seed']}:C20")
-    scs = directed_scenarios(spec["seed"]) + fragment_scenarios(spec["seed"]) + long_history_scenarios(spec["seed"]) + same_host_scenarios(spec["seed"]) + drift_scenarios(spec["seed"])
+    scs = directed_scenarios(spec["seed"]) + fragment_scenarios(spec["seed"]) + long_history_scenarios(spec["seed"]) + same_host_scenarios(spec["seed"]) + drift_scenarios(spec["seed"]) + lossy_scenarios(spec["seed"])
     pairs = list(itertools.product(TEMPLATES, repeat=2))
     reps = 1 if tier == "quick" else 12
     for r in range(reps):
